@@ -12,6 +12,7 @@ import (
 	"os"
 	"runtime"
 	"runtime/debug"
+	"syscall"
 	"testing"
 	"time"
 )
@@ -73,7 +74,22 @@ func vrtRunOne(v vrtVector) (res *vrtRun) {
 		res.Outcome = "timeout"
 		res.Detail = "harness did not finish (deadlock?)"
 	}
+	if os.Getenv("VERIF_SPINCHECK") != "" {
+		// is a goroutine of the scenario still burning CPU now that the harness is over?
+		time.Sleep(100 * time.Millisecond)
+		c0 := vrtProcessCPU()
+		time.Sleep(300 * time.Millisecond)
+		res.SpinCPUms = int((vrtProcessCPU() - c0) / time.Millisecond)
+	}
 	return
+}
+
+func vrtProcessCPU() time.Duration {
+	var ru syscall.Rusage
+	if syscall.Getrusage(syscall.RUSAGE_SELF, &ru) != nil {
+		return 0
+	}
+	return time.Duration(ru.Utime.Nano() + ru.Stime.Nano())
 }
 
 var vrtReplayTimeout = 8 * time.Second
